@@ -280,9 +280,15 @@ def run_case(case, workdir: Path):
         'index_ok': True, 'refs': [], 'writes': [],
         'mn': cfg['settings']['chunking']['min_length'], 'mx': cfg['settings']['chunking']['max_length'],
     }
+    # the digest sequence for Model.Dedup: digests numbered by the order of their bytes (not by occurrence)
+    ids = {d: i for i, d in enumerate(sorted(set(digests) | set(snap.chunks)))}
+    obs['dseq'] = [ids[d] for d in digests]
+    obs['snap_table'] = [ids[d] for d in snap.chunks]
+    obs['ref_index'] = []
     for f in rec.files:
         fd = by_path.get(f.path)
         refs = sorted(fd['chunks'], key=lambda c: c['counter']) if fd else []
+        obs['ref_index'] += [[r['counter'], r['index']] for r in refs]
         for r in refs:
             if not (1 <= r['counter'] <= len(digests)) or snap.chunks[r['index']] != digests[r['counter'] - 1]:
                 obs['index_ok'] = False
@@ -295,7 +301,7 @@ def run_case(case, workdir: Path):
 # --------------------------------------------------------------------------- model side
 def model_file(obss):
     L = ['From Coq Require Import List NArith Arith Bool.',
-         'From Replicat Require Import Model.Stream Model.Chunker Model.Clmul.',
+         'From Replicat Require Import Model.Stream Model.Chunker Model.Clmul Model.Dedup.',
          'Import ListNotations.',
          'Definition refl (r : ref) := (r_start r, r_end r, r_counter r).',
          'Definition run (c : list nat * list nat) :=',
@@ -314,6 +320,11 @@ def model_file(obss):
                                                    '; '.join(core.coq_bytes(bytes.fromhex(p)) for p in o['pieces'])) for o in full))
     L.append('].')
     L.append("Eval vm_compute in map (fun c => let '(k, mn, mx, ps) := c in map (@length N) (gchunkify k mn mx ps (fun _ => []))) full.")
+    # the chunk table: Model.Dedup on the digest sequence
+    L.append('Definition tcases : list (list N) := [')
+    L.append(';\n'.join('  [' + ';'.join(str(i) for i in o['dseq']) + ']%N' for o in obss))
+    L.append('].')
+    L.append('Eval vm_compute in map (fun ds => let t := table_of N.eqb ds in (t, map (fun d => index_of N.eqb d t) ds)) tcases.')
     return '\n'.join(L) + '\n'
 
 
@@ -326,7 +337,8 @@ def run_model(obss, per_file=25):
         if rc != 0:
             return None, None, text[-1500:]
         vals = core.parse_coq_values(text)
-        layouts += core.parse_coq_term(vals[0])
+        tables = core.parse_coq_term(vals[2])
+        layouts += [tuple(l) + (t,) for l, t in zip(core.parse_coq_term(vals[0]), tables)]
         fulls += core.parse_coq_term(vals[1])
     return layouts, fulls, ''
 
@@ -334,7 +346,14 @@ def run_model(obss, per_file=25):
 def compare(obs, layout):
     """model (extents, manifest, plans, sizes) vs observed.  Returns list of differences."""
     diffs = []
-    extents, manifest, plans, sizes = layout
+    extents, manifest, plans, sizes, (mtable, mindex) = layout
+    # chunk table (Model.Dedup.table_of / index_of on the digest sequence) vs the snapshot's table and ref indices
+    if list(mtable) != obs['snap_table']:
+        diffs.append(f'chunk table differs: model {list(mtable)} implementation {obs["snap_table"]} (digests numbered by byte order)')
+    for counter, index in obs['ref_index']:
+        if not (1 <= counter <= len(mindex)) or mindex[counter - 1] != index:
+            diffs.append(f'chunk #{counter}: table index differs: model {mindex[counter - 1] if 1 <= counter <= len(mindex) else None} implementation {index}')
+            break
     if [list(e) for e in extents] != obs['extents']:
         diffs.append(f'stream extents differ: model {extents} implementation {obs["extents"]}')
         return diffs
